@@ -42,8 +42,12 @@ def gen(rng, tier):
         kind = rng.choice(['FlowDemux', 'FIBDemux', 'FIBDemux', 'SimpleSwitch', 'FairSwitch'])
         nouts = rng.randint(0 if kind in ('FlowDemux', 'FIBDemux') else 1, 4)
         flows = [rng.randint(0, 7) for _ in range(rng.randint(1, 12))]
+        if rng.random() < 0.15:
+            # flow ids are not necessarily small non-negative numbers
+            flows = [rng.choice([f, -1, -3, -f]) for f in flows]
         case = {'sub': 'demux', 'kind': kind, 'nouts': nouts, 'default': rng.random() < 0.5, 'flows': flows,
-                'fib': [[f, rng.randint(0, max(0, nouts))] for f in range(8) if rng.random() < 0.6] if rng.random() < 0.85 else [],
+                'fib': [[f, rng.choice([rng.randint(0, max(0, nouts))] * 9 + [-1, -2])] for f in range(-3, 8)
+                        if rng.random() < 0.6] if rng.random() < 0.85 else [],
                 'ends': [f for f in range(8) if rng.random() < 0.2],
                 'server': rng.choice(['WFQ', 'DRR', 'SP', 'VirtualClock']), 'buffer': rng.choice([4, 64])}
         if kind == 'FlowDemux' and nouts >= 1 and rng.random() < 0.3:
@@ -117,7 +121,7 @@ def run_demux(w, case):
         entry = sw
         dflt = None
     else:
-        weights = dict((f, 1) for f in range(8))
+        weights = dict((f, 1) for f in set(range(8)) | set(case.get('flows', [])))
         sw = FairPacketSwitch(env, nouts, 1 << 20, case.get('buffer', 64), weights, case.get('server', 'WFQ'), element_id='sw')
         sw.demux.fib = fib
         for f, e in ends.items():
